@@ -451,6 +451,53 @@ for _prop in ("C01", "C02"):
     scenario(_prop, [LHS + "._sample_points", LHS + "._create_lhs_in_bounding_box", LHS + "._check_lhs_inside", LHS + "._append_random_points", RUS + "._sample_points"], configs=CFG, history=["indep/K", "dep/K"])(_lhs)
 
 
+def _lhs_strata_box(S):
+    """per-call clause of 'Latin hypercube: one point per slab' at the sampler level: for EVERY parameter row the strata
+    are laid out on the bounding box of the domain AT THAT ROW (the box handed to _create_lhs_in_bounding_box is the one
+    bounding_box returned for exactly the one-row parameters the proposals are then tested against) -- a box of all
+    rows together would put the slabs on the hull, and after the membership filter most slabs of the row's own box
+    would be empty or doubly occupied.  (That _create_lhs_in_bounding_box puts one point into each slab of the box it
+    is given is latin_hypercube_one_point_per_slab.)"""
+    su = Setup(S, True, True)
+    keys = [("x", R2), ("t", R1)]
+
+    def Pk(k, row):
+        tk = zreal(su.T.val.at([(k,), ()]))
+        return z3.And(su.dom.in_pred(row[:2], [tk]), row[2] == tk)
+
+    S.loop(LHS + "._sample_points", 0, acc_points_loop(S, "sample_points", keys, su.n, 3, lambda k, j, row: Pk(k, row), "parameter-loop"))
+    seen = {"box": None, "n": 0}
+
+    def on_create(rec):
+        seen["box"] = (rec["bounding_box"], su.dom.box)
+        seen["n"] += 1
+
+    def on_check(rec):
+        ip = rec["ith_params"]
+        got = seen["box"]
+        S.ensure("strata-laid-out-before-the-membership-test", got is not None)
+        if got is None:
+            return
+        box_tensor, (bx, bparams) = got
+        bt, it = bparams.f["_t"].val, ip.f["_t"].val
+        one = lambda v: v.rank == 2 and v.shape[0].is_one and v.shape[1].is_one
+        S.ensure("box-asked-for-exactly-one-parameter-row", one(bt) and one(it))
+        if one(bt) and one(it):
+            S.ensure("box-is-the-box-of-the-row-the-proposals-are-tested-against", zreal(bt.at([(), ()])) == zreal(it.at([(), ()])))
+        S.ensure("strata-use-that-box", z3.And([zreal(box_tensor.val.at([(j,)])) == bx[j] for j in range(4)]))
+
+    S.on_call(LHS + "._create_lhs_in_bounding_box", on_create)
+    S.ctx.ghost["assumed_lemmas"].pop()
+    S.on_call(LHS + "._check_lhs_inside", on_check)
+    S.ctx.ghost["assumed_lemmas"].pop()
+    smp = S.new(LHS, su.dom.obj, su.n)
+    S.method(smp, "sample_points", su.params)
+
+
+_lhs_strata_box.__name__ = "lhs_sampler_lays_the_strata_on_the_box_of_the_rows_own_parameters"
+scenario("C11", [LHS + "._sample_points", LHS + "._check_lhs_inside"], configs=["dep/K"])(_lhs_strata_box)
+
+
 # ----------------------------------------------------------------------------- ExponentialIntervalSampler (C01/C02)
 EXPS = "torchphysics.problem.samplers.grid_samplers.ExponentialIntervalSampler"
 
